@@ -671,7 +671,13 @@ pub fn determinism_jobs(rng: &mut Rng, dir: &Path) -> Option<(Vec<Job>, String)>
         yaml_str(bad_templates[2])
     );
     let fields_ok = "    date: 1\n    payee: 2\n    category: 3\n    note: 4\n    amount: 5\n    balance: 6\n";
-    let bad_rules = "rewrite:\n  - matcher:\n      payee: \"(unclosed\"\n      category: \"[a-\"\n      note: \"*x\"\n    account: Expenses:X\n";
+    // every field of the map is defective in its own way (three invalid patterns, or an invalid
+    // pattern next to a field the CSV importer does not support)
+    let bad_rules = if rng.chance(1, 2) {
+        "rewrite:\n  - matcher:\n      payee: \"(unclosed\"\n      category: \"[a-\"\n      secondary_commodity: \"*x\"\n    account: Expenses:X\n"
+    } else {
+        "rewrite:\n  - matcher:\n      payee: \"Card (?P<code>\\\\d+\"\n      creditor_name: \"Coop\"\n      category: \"[Food\"\n    account: Expenses:X\n"
+    };
     for (family, name, cfg_text) in [
         ("import-csv-several-missing-labels", "defect1", format!("path: defect1.csv\n{}{}", head, fields_missing)),
         ("import-csv-several-invalid-templates", "defect2", format!("path: defect2.csv\n{}{}", head, fields_templates)),
